@@ -349,7 +349,7 @@ fn kind_for(id: SectionId) -> Option<SectKind> {
 }
 
 pub fn pkg_stream(ctx: &mut Ctx) {
-    let n = ctx.size(1_200, 15_000, 6);
+    let n = ctx.size(4_000, 30_000, 6);
     for i in 0..n {
         if !ctx.want("pkg", i) {
             continue;
